@@ -985,13 +985,10 @@ def judge(spec, ref, records, chain, final, k=0, first_commit_k=0) -> list:
                 continue
             if o not in db['outputs'].get(ident, ()):
                 at_risk.setdefault((cyc, name), set()).add(o)
-            elif msg != o:
-                # committed, but load_db_task_pool_for_restart iterates the
-                # {trigger: message} dict of task_outputs and calls
-                # set_message_complete(trigger): an output whose message
-                # differs from its name is not restored on the proxy
-                at_risk.setdefault((cyc, name), set()).add(o)
-                unrestored_custom.add((cyc, name))
+            # (a committed output is restored by the restart load - since
+            # /repo b62f691 also when its message differs from its name - so
+            # it is not at risk; if it goes missing that is reported under
+            # the generic signature)
     lost_msg = set()
     if final.get('db'):
         for (cyc, name), outs in at_risk.items():
